@@ -31,7 +31,7 @@ from ..spec import hashes as H
 from . import C03
 
 EXPLANATION = __doc__
-TECHNIQUE = "value-graph equality (abstract interpretation of MIR in a hash-consed bit-level term domain with linear-combination, parity and truth-table normal forms) against specification graphs; R-BUILD type checks per configuration, dispatcher wiring per configuration, loop-guard / slice-advance constant agreement, shift-pair census, ADT layout facts, argument provenance of aligned-access intrinsics"
+TECHNIQUE = "value-graph equality (abstract interpretation of MIR in a hash-consed bit-level term domain with linear-combination, parity and truth-table normal forms) against specification graphs; R-BUILD type checks per configuration, dispatcher wiring per configuration, loop-guard / slice-advance constant agreement, shift-pair census, ADT layout facts, argument provenance of aligned-access intrinsics; bounded shape evaluation (concrete offsets / lengths derived from the code's own length constants, symbolic contents, opaque recorded leaf calls) of the buffering loops (SIMD block-run drivers)"
 
 
 def cn(fn, op):
